@@ -14,7 +14,9 @@
  *  W4 argn >= 0 in containers, sum of argn over container states == argcount, states[0].argn == pending
  *  W5 bufcount == 0 whenever the top state is dispatched by `root` or `atsign` (no stale token bytes)
  * Compiled in the JANET_NO_NANBOX configuration (tuples are unwrapped by popstate).  Allocation/GC entry points are stubs that
- * return fresh valid objects of the requested size; realloc is modelled by a typed copy into a fresh object. */
+ * return fresh valid objects of the requested size; realloc is modelled by a typed copy into a fresh object.
+ * VARIANT of parse_consumers.c for the expensive consumers (root, longstring): the three stacks start at their maximal capacity
+ * (NEST / BUFMAX / ARGMAX) with symbolic counts, so the growth path is exercised exactly at count == capacity with a constant size. */
 #include "prelude.h"
 
 #ifndef BUFMAX
@@ -32,17 +34,17 @@ static JanetParser P;
 void *realloc_stub(void *old, size_t n) {
   __CPROVER_assert(n > 0, "C11 wf: stacks never shrink to size 0");
   if (old == (void *) P.states && old) {
-    size_t cnt = P.statecap; JanetParseState *nw = malloc(n);
+    size_t cnt = P.statecap; __CPROVER_assert(n == 2 * (NEST + 1) * sizeof(JanetParseState), "C11 wf: state stack doubles"); JanetParseState *nw = malloc(2 * (NEST + 1) * sizeof(JanetParseState));
     __CPROVER_assert(n >= cnt * sizeof(JanetParseState), "C11 wf: state stack grows");
     __CPROVER_assert(cnt <= NEST, "harness bound"); for (size_t i = 0; i < cnt; i++) nw[i] = P.states[i];
     free(old); return nw;
   } else if (old == (void *) P.args && old) {
-    size_t cnt = P.argcap; Janet *nw = malloc(n);
+    size_t cnt = P.argcap; __CPROVER_assert(n == 2 * (ARGMAX + 1) * sizeof(Janet), "C11 wf: args stack doubles"); Janet *nw = malloc(2 * (ARGMAX + 1) * sizeof(Janet));
     __CPROVER_assert(n >= cnt * sizeof(Janet), "C11 wf: args stack grows");
     __CPROVER_assert(cnt <= ARGMAX, "harness bound"); for (size_t i = 0; i < cnt; i++) nw[i] = P.args[i];
     free(old); return nw;
   } else if (old == (void *) P.buf && old) {
-    size_t cnt = P.bufcap; uint8_t *nw = malloc(n);
+    size_t cnt = P.bufcap; __CPROVER_assert(n == 2 * (BUFMAX + 1), "C11 wf: token buffer doubles"); uint8_t *nw = malloc(2 * (BUFMAX + 1));
     __CPROVER_assert(n >= cnt, "C11 wf: token buffer grows");
     __CPROVER_assert(cnt <= BUFMAX + 1, "harness bound"); for (size_t i = 0; i < cnt; i++) nw[i] = P.buf[i];
     free(old); return nw;
@@ -163,14 +165,14 @@ static int wf_parser(size_t maxstates) {
 
 static void setup(void) {
   P.statecount = nd_size(); P.statecap = nd_size();
-  __CPROVER_assume(P.statecount >= 1 && P.statecount <= NEST && P.statecap >= P.statecount && P.statecap <= NEST);
-  P.states = malloc(P.statecap * sizeof(JanetParseState));
+  __CPROVER_assume(P.statecount >= 1 && P.statecount <= NEST && P.statecap == NEST);
+  P.states = malloc(NEST * sizeof(JanetParseState));
   P.bufcount = nd_size(); P.bufcap = nd_size();
-  __CPROVER_assume(P.bufcount <= P.bufcap && P.bufcap <= BUFMAX);
-  P.buf = P.bufcap ? malloc(P.bufcap) : 0;
+  __CPROVER_assume(P.bufcount <= P.bufcap && P.bufcap == BUFMAX);
+  P.buf = malloc(BUFMAX);
   P.argcount = nd_size(); P.argcap = nd_size();
-  __CPROVER_assume(P.argcount <= P.argcap && P.argcap <= ARGMAX);
-  P.args = P.argcap ? malloc(P.argcap * sizeof(Janet)) : 0;
+  __CPROVER_assume(P.argcount <= P.argcap && P.argcap == ARGMAX);
+  P.args = malloc(ARGMAX * sizeof(Janet));
   P.pending = nd_size(); P.line = nd_size(); P.column = nd_size(); P.lookback = nd_int();
   P.flag = 0; P.error = 0;                        /* janet_parser_consume dispatches only on a live parser without latched error */
   __CPROVER_assume(wf_parser(NEST));              /* representation invariant of the input parser */
